@@ -20,7 +20,7 @@ VARIABLES ereg,     \* u -> record, see above
           fired     \* ghost: u -> number of callbacks since the last add/enable/disable
 eVars == <<ereg, busy, fired>>
 
-EvNoReg == [present |-> FALSE, ev |-> 0, fl |-> 0, dis |-> FALSE, owner |-> -1, inflight |-> FALSE, armedBy |-> "none"]
+EvNoReg == [present |-> FALSE, ev |-> 0, fl |-> 0, dis |-> FALSE, owner |-> -1, inflight |-> FALSE, armedBy |-> "none", early |-> 0]
 
 (* tpt_ev_validate: the registrations that must be refused *)
 EvMalformed(ev, fl, ff) ==
@@ -32,7 +32,7 @@ EvMalformed(ev, fl, ff) ==
     \/ (ev = 3 /\ ff \notin 0..1)
 
 (* call.ev: a thread enters tpt_ev_add / _enable / _del on object u *)
-EvEnter(u, t) == /\ busy' = [busy EXCEPT ![u] = t] /\ UNCHANGED <<ereg, fired>>
+EvEnter(u, t) == /\ busy' = [busy EXCEPT ![u] = t] /\ ereg' = [ereg EXCEPT ![u].early = 0] /\ UNCHANGED fired
 
 (* ret.ev: the call returns rc; `tpd` = registration still recorded in the object afterwards *)
 EvPost(u, t, op, ev, fl, ff, thr, rc, tpd) ==
@@ -44,9 +44,11 @@ EvPost(u, t, op, ev, fl, ff, thr, rc, tpd) ==
        THEN /\ ereg' = [ereg EXCEPT ![u] = [EvNoReg EXCEPT !.owner = ereg[u].owner, !.inflight = ereg[u].inflight]]  \* a failed kernel call drops the registration
             /\ UNCHANGED fired
        ELSE CASE op = OP_ADD \/ op = OP_ENABLE ->
-                   /\ ereg' = [ereg EXCEPT ![u] = [present |-> TRUE, ev |-> ev, fl |-> fl, dis |-> FALSE,
+                   \* the kernel is armed before the call returns: callbacks seen meanwhile (`early`) already count
+                   /\ ereg' = [ereg EXCEPT ![u] = [present |-> ~(@.early > 0 /\ fl % 2 = 1), ev |-> ev, fl |-> fl,
+                                                   dis |-> (@.early > 0 /\ (fl \div 2) % 2 = 1),
                                                    owner |-> IF op = OP_ADD THEN thr ELSE @.owner,
-                                                   inflight |-> @.inflight, armedBy |-> "post"]]
+                                                   inflight |-> @.inflight, armedBy |-> "post", early |-> 0]]
                    /\ fired' = [fired EXCEPT ![u] = 0]
               [] op = OP_DISABLE ->
                    /\ ereg[u].present
@@ -55,7 +57,8 @@ EvPost(u, t, op, ev, fl, ff, thr, rc, tpd) ==
                    /\ fired' = [fired EXCEPT ![u] = 0]         \* the flags are re-recorded: counting restarts
               [] op = OP_DEL ->
                    /\ ereg' = [ereg EXCEPT ![u] = [EvNoReg EXCEPT !.inflight = IF t = ereg[u].owner THEN FALSE ELSE ereg[u].inflight,
-                                                                !.owner = ereg[u].owner]]
+                                                                !.owner = ereg[u].owner,
+                                                                !.armedBy = IF t = ereg[u].owner THEN "none" ELSE "foreign-del"]]
                    /\ UNCHANGED fired
               [] OTHER -> FALSE
 
@@ -67,10 +70,17 @@ EvGate(t, u, dis, set) ==
     /\ UNCHANGED <<busy, fired>>
 
 (* loop.cb: the callback is invoked on thread t with event kind ev and result flags *)
+EvDeliverEarly(t, u, ev) ==        \* while another thread is still inside add/enable on u
+    /\ busy[u] \notin {-1, t} /\ ereg[u].inflight
+    /\ ereg' = [ereg EXCEPT ![u].inflight = FALSE, ![u].early = @ + 1]
+    /\ UNCHANGED <<busy, fired>>
 EvDeliver(t, u, ev) ==
+    /\ busy[u] \in {-1, t}
     /\ ereg[u].inflight                                           \* (C06) only past the gate: a disabled event never fires
+    /\ ereg[u].present \/ ereg[u].armedBy = "foreign-del"          \* (C06) a deleted / consumed one-shot event is gone; only a
+                                                                  \*        report already dequeued when ANOTHER thread deleted may still arrive
     /\ ereg[u].present => t = ereg[u].owner /\ ev = ereg[u].ev    \* (C06) on the owning thread, as registered
-    /\ ereg' = [ereg EXCEPT ![u].inflight = FALSE,
+    /\ ereg' = [ereg EXCEPT ![u].inflight = FALSE, ![u].armedBy = IF @ = "foreign-del" THEN "none" ELSE @,
                             ![u].dis = IF @ \/ (ereg[u].present /\ (ereg[u].fl \div 2) % 2 = 1) THEN TRUE ELSE FALSE,  \* DISPATCH
                             ![u].present = IF ereg[u].present /\ ereg[u].fl % 2 = 1 THEN FALSE ELSE @]                \* ONESHOT
     /\ fired' = [fired EXCEPT ![u] = @ + 1]
